@@ -147,6 +147,9 @@ def run(tier):
         pairs = [s for s in dc.scenarios_from_sched(vlib.read_ndjson(s2), TICK_MS, DEADLINE_MS, always_empty=False)
                  if len(s["ops"]) == 2]
         exhaustive_pairs = r2["finished"]
+        # without the quiet-network assumption: ticks may race with up to two datagrams in flight each way
+        _run_tlc(ck, "pinned_b1_racing_ticks", spec="FairSpec", deviations=dc.OPEN_DEVIATIONS, net_kinds=ALL_KINDS,
+                 net_budget=1, invariants=INV, properties=["Converge"], tick_slack=2, timeout=1500)
         s3 = os.path.join(d, "sched_b3.ndjson")
         _run_tlc(ck, "pinned_b3_sim", spec="Spec", deviations=dc.OPEN_DEVIATIONS, net_kinds=ALL_KINDS, net_budget=3,
                  invariants=INV, emit="EmitSched", tags=("SCHED",), sinks={"SCHED": s3}, workers=1,
@@ -195,8 +198,15 @@ def run(tier):
     # its Finished cannot converge whatever rustrtc does: not run against it (run rustrtc<->rustrtc above).
     def ref_final_lost(x):
         return any(o["dir"] == "S>C" and o["msg"] == "FIN" and o["kind"] in ("drop", "hold") for o in x["tlc_ops"])
-    n_ref_excluded = sum(1 for x in ref_s if ref_final_lost(x))
-    ref_s = [x for x in ref_s if not ref_final_lost(x)]
+    # Losing or delaying a *fragment on its way to the reference* exercises only the reference's reassembly, which
+    # cannot recover from it: it chains fragments by exact adjacency and stays stuck on the first piece even when the
+    # complete retransmitted message arrives (rustrtc does retransmit it, with fresh record numbers). Not run.
+    def frag_to_ref_lost(x, to_ref):
+        return any(o["dir"] == to_ref and "#" in o["msg"] and o["kind"] in ("drop", "hold") for o in x["tlc_ops"])
+    n_ref_excluded = sum(1 for x in ref_s if ref_final_lost(x) or frag_to_ref_lost(x, "C>S")) + \
+        sum(1 for x in ref_c if frag_to_ref_lost(x, "S>C"))
+    ref_s = [x for x in ref_s if not ref_final_lost(x) and not frag_to_ref_lost(x, "C>S")]
+    ref_c = [x for x in ref_c if not frag_to_ref_lost(x, "S>C")]
     ref_ids = {x["id"] for x in ref_s + ref_c}
 
     scenarios = singles + pairs + ref_s + ref_c
@@ -246,8 +256,9 @@ def run(tier):
                     f"ops that did not fire in the real run: {unfired}; trace validation: {accepted} accepted, "
                     f"{len(rejections)} rejected")
     ck.notes.append(f"rustrtc<->reference (webrtc-rs dtls 0.17.2) pairs: {len(ref_s)} schedules with the reference as server "
-                    f"(HelloVerifyRequest exchange; {n_ref_excluded} schedules that lose the reference's final flight excluded: it "
-                    f"never resends it), {len(ref_c)} with the reference as client; outcome comparison only")
+                    f"(HelloVerifyRequest exchange), {len(ref_c)} with the reference as client; {n_ref_excluded} schedules not run "
+                    f"against it (they lose the reference's final flight, which it never resends, or a fragment on its way to "
+                    f"the reference, from which its reassembly does not recover); outcome comparison only")
     ck.assumptions += [
         "bounds: faults address ordinals 1..2 of each (direction, datagram label); quick: all single faults executed, "
         "pairs model-checked for drop/hold-1/split-3 on first transmissions and a seeded TLC -simulate sample of pairs executed; "
